@@ -108,12 +108,13 @@ def _distinct_cell(model, ch, max_rows):
     letters = []
     location = world.location()
     for index in range(n_rows):
-        letter = ch.choose(("f1", index), ["a", "b", "c"][: 2 if index < 2 else 3])
+        # "-" is the empty value (a field that may be empty): it counts like any other value
+        letter = ch.choose(("f1", index), ["a", "-", "c"][: 2 if index < 2 else 3])
         if reset_before_last and index == n_rows - 1:
             interp.call_function(model.func(DISTINCT + ".reset"), [check], {}, None)
             letters = []
         letters.append(letter)
-        field_map = {"f0": Atom("f0@%d" % index, "f0=%d" % index), "f1": Atom("f1@%d" % index, "f1=" + letter)}
+        field_map = {"f0": Atom("f0@%d" % index, "f0=%d" % index), "f1": "" if letter == "-" else Atom("f1@%d" % index, "f1=" + letter)}
         try:
             interp.call_function(model.func(DISTINCT + ".check_row"), [check, field_map, location], {}, None)
         except AbsRaise as raised:
